@@ -288,7 +288,7 @@ def check(pid, tier, seed):
         violations.append(("monitor", path, False))
     pure_soft = []
     for d in pure_divs:
-        if spec.get("pure_only_panics") and not (isinstance(d.get("impl"), dict) and "panic" in d["impl"]):
+        if d.get("missing") or (spec.get("pure_only_panics") and not (isinstance(d.get("impl"), dict) and "panic" in d["impl"])):
             pure_soft.append(d)       # a different typed result is not a failing input of this property
             continue
         n += 1
